@@ -151,15 +151,23 @@ func formatError(e digError, w fmt.State, v rune) {
 // and handle panics in provided/invoked/decorated functions.
 func RootCause(err error) error {
 	var de Error
-	// Dig down to first non dig.Error, or bottom of chain
-	for ; errors.As(err, &de); err = errors.Unwrap(de) {
+	if !errors.As(err, &de) {
+		return err
 	}
-
-	if err == nil {
-		return de
+	// Follow the chain below the outermost dig.Error link by link and stop
+	// at the first error that dig did not create, even if that error wraps
+	// a dig.Error of its own.
+	for {
+		cause := errors.Unwrap(de)
+		if cause == nil {
+			return de
+		}
+		next, ok := cause.(Error)
+		if !ok {
+			return cause
+		}
+		de = next
 	}
-
-	return err
 }
 
 // errInvalidInput is returned whenever the user provides bad input when
